@@ -5,6 +5,7 @@ import (
 	"fmt"
 	"sort"
 	"time"
+	"unique"
 
 	"github.com/samber/lo"
 	corev1 "k8s.io/api/core/v1"
@@ -82,12 +83,29 @@ func runD(c *kit.Ctx, r *kit.Rand, idx int) {
 	np.Spec.Limits = nil
 	kit.Apply(ctx, cl, np)
 	cluster := state.NewCluster(clk, cl, cp)
-	prov := provisioning.NewProvisioner(cl, events.NewRecorder(&record.FakeRecorder{}), cp, cluster, clk, deviceallocation.NewController(cl), virtualpods.NewVirtualPodCache(cl))
+	devCtl := deviceallocation.NewController(cl)
+	prov := provisioning.NewProvisioner(cl, events.NewRecorder(&record.FakeRecorder{}), cp, cluster, clk, devCtl, virtualpods.NewVirtualPodCache(cl))
+	// devices already allocated on the API server, as the deviceallocation controller reports them
+	var pre []string
+	preCap := int64(0)
+	if r.Chance(1, 3) {
+		dev := kit.Pick(r, w.exclNames)
+		kit.Apply(ctx, cl, test.AllocatedClusterWideClaim("held-exclusive", "excl-pool", exclDriver, dev, resourcev1.ResourceClaimConsumerReference{Resource: "pods", Name: "running", UID: "running-pod"}))
+		pre = append(pre, fmt.Sprintf("%s/excl-pool/%s", exclDriver, dev))
+		c.Count("D:setup:exclusive-device-allocated-in-cluster")
+	}
+	if r.Chance(1, 3) {
+		preCap = int64(r.Range(1, 3))
+		kit.Apply(ctx, cl, test.AllocatedSharedClaim("held-shared", "cap-pool", capDriver, "shared0", map[resourcev1.QualifiedName]resource.Quantity{test.CapacityMemory: qty(preCap)},
+			resourcev1.ResourceClaimConsumerReference{Resource: "pods", Name: "running", UID: "running-pod"}))
+		c.Count("D:setup:shared-capacity-partly-consumed-in-cluster")
+	}
 
 	nPods := r.Range(2, 6)
 	var pods []*corev1.Pod
 	var jpods []string
 	var lastClaim string
+	var podClaim []string
 	for i := 0; i < nPods; i++ {
 		claimName := fmt.Sprintf("claim%d", i)
 		desc := ""
@@ -123,6 +141,10 @@ func runD(c *kit.Ctx, r *kit.Rand, idx int) {
 			ResourceClaims:       []corev1.PodResourceClaim{{Name: "dev", ResourceClaimName: lo.ToPtr(claimName)}},
 			ResourceRequirements: corev1.ResourceRequirements{Requests: corev1.ResourceList{corev1.ResourceCPU: resource.MustParse(kit.Pick(r, []string{"500m", "1", "2"}))}},
 		}
+		viaTemplate := r.Chance(1, 5) // the claim was generated from a ResourceClaimTemplate: its name is in the pod status
+		if viaTemplate {
+			opts.ResourceClaims = []corev1.PodResourceClaim{{Name: "dev", ResourceClaimTemplateName: lo.ToPtr("tmpl")}}
+		}
 		if r.Chance(1, 4) {
 			opts.NodeSelector = map[string]string{corev1.LabelTopologyZone: kit.Pick(r, []string{"test-zone-1", "test-zone-2", "test-zone-3"})}
 			desc += " zone-pinned"
@@ -132,10 +154,21 @@ func runD(c *kit.Ctx, r *kit.Rand, idx int) {
 			desc += " instance-type-pinned"
 		}
 		p := test.UnschedulablePod(opts)
+		if viaTemplate {
+			if r.Chance(1, 4) {
+				p.Status.ResourceClaimStatuses = []corev1.PodResourceClaimStatus{{Name: "dev"}} // not generated
+				c.Count("D:pod:template-claim-not-generated")
+			} else {
+				p.Status.ResourceClaimStatuses = []corev1.PodResourceClaimStatus{{Name: "other"}, {Name: "dev", ResourceClaimName: lo.ToPtr(claimName)}}
+				c.Count("D:pod:claim-from-template")
+			}
+		}
 		kit.Apply(ctx, cl, p)
 		pods = append(pods, p)
+		podClaim = append(podClaim, claimName)
 		jpods = append(jpods, desc)
 	}
+	devCtl.Hydrate(ctx)
 	s, err := prov.NewScheduler(ctx, pods, nil, sets.New[types.UID]())
 	if err != nil {
 		panic(err)
@@ -155,6 +188,39 @@ func runD(c *kit.Ctx, r *kit.Rand, idx int) {
 			panic(err)
 		}
 		results.claims, results.ncs, results.errs = res.DRAClaimAllocationMetadata, len(res.NewNodeClaims), len(res.PodErrors)
+		claimOf := map[string]string{} // pod name -> claim name, as the pod itself names it
+		for _, p := range pods {
+			pc := p.Spec.ResourceClaims[0]
+			if pc.ResourceClaimName != nil {
+				claimOf[p.Name] = *pc.ResourceClaimName
+			}
+			for _, st := range p.Status.ResourceClaimStatuses {
+				if st.Name == pc.Name && st.ResourceClaimName != nil {
+					claimOf[p.Name] = *st.ResourceClaimName
+				}
+			}
+		}
+		_ = podClaim
+		for _, nc := range res.NewNodeClaims {
+			for _, p := range nc.Pods {
+				meta, ok := res.DRAClaimAllocationMetadata[types.NamespacedName{Namespace: "default", Name: claimOf[p.Name]}]
+				if !ok {
+					continue
+				}
+				// a claim satisfied with template devices lives on the NodeClaim it was allocated for
+				if meta.UsedTemplateDevices && meta.NodeClaimID.Value() != nc.VerifC17Hostname() {
+					c.Fail(c.NextID(), fmt.Sprintf("pod %s runs on NodeClaim %s but its claim %s is bound to template devices of NodeClaim %s", p.Name, nc.VerifC17Hostname(), claimOf[p.Name], meta.NodeClaimID.Value()), "", sc)
+				}
+				// every instance type the NodeClaim may launch with has devices for the claim
+				if meta.NodeClaimID.Value() == nc.VerifC17Hostname() {
+					for _, it := range nc.InstanceTypeOptions {
+						if len(meta.Devices[unique.Make(it.Name)]) == 0 {
+							c.Fail(c.NextID(), fmt.Sprintf("NodeClaim %s keeps instance type %s for which claim %s has no device allocation", nc.VerifC17Hostname(), it.Name, claimOf[p.Name]), "", sc)
+						}
+					}
+				}
+			}
+		}
 		for _, nc := range res.NewNodeClaims {
 			if nc.Annotations[v1.DRADriversAnnotationKey] != "" {
 				c.Count("D:nodeclaim:annotated-with-dra-drivers")
@@ -188,6 +254,12 @@ func runD(c *kit.Ctx, r *kit.Rand, idx int) {
 	grecs, jrecs := finalRecords(w, metas)
 	sc["final_records"] = jrecs
 	budgets := lo.Assign(map[string]int64{}, w.capTotals, map[string]int64{fmt.Sprintf("%s|part-pool|cs|slices", partDriver): w.counterTotal})
+	for k := range budgets {
+		if k == dra.VerifC17CapacityKey(dra.DeviceID{DeviceID: cloudprovider.DeviceID{Driver: unique.Make(capDriver), Pool: unique.Make("cap-pool"), Device: unique.Make("shared0")}}, string(test.CapacityMemory)) {
+			budgets[k] -= preCap
+		}
+	}
+	sharedKey := dra.VerifC17CapacityKey(dra.DeviceID{DeviceID: cloudprovider.DeviceID{Driver: unique.Make(capDriver), Pool: unique.Make("cap-pool"), Device: unique.Make("shared0")}}, string(test.CapacityMemory))
 	// the tracker's own books at the end of the pass
 	if a := s.VerifC17Allocator(); a != nil {
 		b := a.VerifC17Tracker().VerifC17Budgets()
@@ -197,7 +269,7 @@ func runD(c *kit.Ctx, r *kit.Rand, idx int) {
 			}
 		}
 		for k, v := range b.InflightCapacity {
-			if v > w.capTotals[k] {
+			if v+lo.Ternary(k == sharedKey, preCap, 0) > w.capTotals[k] {
 				c.Fail(c.NextID(), fmt.Sprintf("in-flight capacity %s exceeds the device capacity after Solve: %d > %d", k, v, w.capTotals[k]), "", sc)
 			}
 		}
@@ -207,5 +279,5 @@ func runD(c *kit.Ctx, r *kit.Rand, idx int) {
 		key = fmt.Sprint("D:", sc)
 	}
 	c.Count(fmt.Sprintf("D:new-nodeclaims:%d", lo.Min([]int{results.ncs, 4})))
-	c.AddCase(fmt.Sprintf("CaseF [] %s %s %s", gKVs(budgets), gKVs(w.tbudget), kit.GList(grecs)), sc, key)
+	c.AddCase(fmt.Sprintf("CaseF %s %s %s %s", kit.GStrs(pre), gKVs(budgets), gKVs(w.tbudget), kit.GList(grecs)), sc, key)
 }
